@@ -77,6 +77,8 @@ type Machine struct {
 	pevalNeg  map[*Term]int
 	passerts  []pendingAssert
 	addrBytes map[*Ref]*[8]*Term
+	locked    map[*Obj]bool
+	onceDone  map[*Obj]bool
 	lastArgs  map[string][]Val
 	observed  []string
 
@@ -230,6 +232,8 @@ func (m *Machine) resetPath() {
 	m.pevalNeg = map[*Term]int{}
 	m.passerts = m.passerts[:0]
 	m.addrBytes = map[*Ref]*[8]*Term{}
+	m.locked = map[*Obj]bool{}
+	m.onceDone = map[*Obj]bool{}
 	m.lastArgs = map[string][]Val{}
 	m.observed = nil
 	m.mapIters = map[*Obj]*mapIterState{}
